@@ -48,6 +48,11 @@ CLAIMED = {
    text="Generated-input search per quick run: 6000 conversion / arity cases (identity functions at 18 parameter types, 28 integer magnitudes around every width's bounds, floats, 10 wrong kinds, compound ill-typed values, host-made extremes, a registered struct, 10 functions with 0-5 arguments) and 2000 lend scenarios (a host object lent by reference with Engine::with_mut_reference while a script stashes it in a global, box, vector, list, hash map, struct field, closure or across a continuation; then 1-3 uses after the call and optionally one during a second lend of another object). Oracle: well typed in-range arguments come back unchanged, everything else raises, nothing comes back as a different value, every use of a stale reference raises and never reaches another object; no panics. JIT on/off.",
    note="Trusted: the registrations in svworker/src/host.rs (Engine::register_fn / register_type / with_mut_reference). A symbol passed where a String is expected may be converted (same text); an integral float passed to an integer parameter may be accepted if it arrives as the same integer.",
    design="DESIGN.md section 4, C20"),
+ "C18": dict(
+   technique="property-based testing with a survival / termination oracle: generated (value shape, size, operation) triples incl. cyclic structures, executed in forked children with bounded address space and the default native stack",
+   text="Generated-input search: 300 (quick) triples over 14 deep / wide shapes at sizes 10..10^5 (thorough 10^6) and 5 cyclic shapes with cycle lengths 1-64, under 8 operations (build and discard with a collection, equal? with an equal and with a different copy, use as hash key, write to a string port, hand to a native thread, collect while alive, store in containers), JIT on/off. The engine process must survive (a native stack overflow is a crash), give the expected small result or an error value, and operations on cycles of <=64 cells must finish within 15 s. Out of memory and timeouts on large sizes are inconclusive.",
+   note="Trusted: fork isolation and resource limits of the worker (6 GB address space, 8 MB main-thread stack). Streams are not generated. Recursive hashing and the cycle printer's box path are listed known findings matched by signature.",
+   design="DESIGN.md section 4, C18"),
  "C02": dict(
    technique="differential property-based testing: generated programs and evaluation histories run under 7 (quick) / 24 (thorough) combinations of the optimisation switches (JIT, inlining, recursive inlining, closure lifting, module inlining), all compared with each other and with the reference interpreter",
    text="Generated-input search: each generated program / history (same generators as C01 and C06) is executed in forked workers under every selected combination of STEEL_JIT, STEEL_INLINE, STEEL_INLINE_RECURSIVE, STEEL_CLOSURE_LIFTING and STEEL_MODULE_INLINE, as top-level text and as a module; values, output and outcome must be identical across configurations (and equal to the reference interpreter). A failure is classed jitdiv (only the JIT differs) or cfgdiv. Bounded by the generators; no proof.",
